@@ -429,3 +429,31 @@ silent("C13", "delta-mean-local-accumulator", [E(TIMED, "TimedTokenCooccurrenceV
                                               E(TIMED, "TimedTokenCooccurrenceVectorizer._set_additional_params", "self.delta_mean_ += ", "gap_sum += "),
                                               E(TIMED, "TimedTokenCooccurrenceVectorizer._set_additional_params", "self.delta_mean_ /= total_t", "self.delta_mean_ = gap_sum / total_t")],
        "the accumulator as a local, the attribute assigned once")
+
+# --- C04: chunk boundaries kept in an attribute (seeded r2_C04)
+_CB_OLD = """                for chunk_start, chunk_end in self._generate_chunk_boundaries(
+                    token_sequences, self.n_threads
+                )
+"""
+_CB_NEW = "                for chunk_start, chunk_end in self._chunk_boundaries\n"
+_CB_OLD2 = """                    for chunk_start, chunk_end in self._generate_chunk_boundaries(
+                        token_sequences, self.n_threads
+                    )
+"""
+_CB_NEW2 = "                    for chunk_start, chunk_end in self._chunk_boundaries\n"
+_CB_SET = """        self._set_coo_sizes(token_sequences)
+        if self.n_threads > 1:
+            self._chunk_boundaries = self._generate_chunk_boundaries(
+                token_sequences, self.n_threads
+            )
+"""
+_CB_BUILD = [E(BASE, "BaseCooccurrenceVectorizer._build_token_cooccurrence_matrix", _CB_OLD, _CB_NEW),
+             E(BASE, "BaseCooccurrenceVectorizer._build_token_cooccurrence_matrix", _CB_OLD2, _CB_NEW2),
+             E(BASE, "BaseCooccurrenceVectorizer.fit", "        self._set_coo_sizes(token_sequences)\n", _CB_SET),
+             E(BASE, "BaseCooccurrenceVectorizer.fit_transform", "        self._set_coo_sizes(token_sequences)\n", _CB_SET)]
+fire("C04", "chunk-boundaries-stored-by-fit-only", "R4.3", _CB_BUILD,
+     "seeded r2_C04: transform slices its corpus with the boundaries of the training corpus")
+silent("C04", "chunk-boundaries-stored-by-every-entry", _CB_BUILD + [
+    E(BASE, "BaseCooccurrenceVectorizer.transform", "        cooccurrences_ = self._build_token_cooccurrence_matrix(\n",
+      "        if self.n_threads > 1:\n            self._chunk_boundaries = self._generate_chunk_boundaries(\n                token_sequences, self.n_threads\n            )\n        cooccurrences_ = self._build_token_cooccurrence_matrix(\n")],
+       "the same hoist with transform regenerating the boundaries for its own corpus")
